@@ -6,6 +6,7 @@ import logging
 import numbers
 import operator
 import os
+import re
 import signal
 import sys
 import threading
@@ -254,6 +255,17 @@ def condom(f):
     return z3_condom
 
 
+_Z3_STRING_ESCAPE = re.compile(r"\\u\{([0-9a-fA-F]+)\}")
+
+
+def _z3_unescape_string(s: str) -> str:
+    """
+    Z3 prints non-printable and non-ASCII characters of a string value (and a backslash in front of a "u") as
+    \\u{...} escapes; turn them back into the characters.
+    """
+    return _Z3_STRING_ESCAPE.sub(lambda m: chr(int(m.group(1), 16)), s)
+
+
 def _z3_decl_name_str(ctx, decl):
     decl_name = z3.Z3_get_decl_name(ctx, decl)
     return z3.Z3_get_symbol_string_bytes(ctx, decl_name)
@@ -497,7 +509,9 @@ class BackendZ3(Backend):
 
     @condom
     def StringV(self, ast):
-        return z3.StringVal(ast.args[0], ctx=self._context)
+        # Z3 interprets \u{...} (and other backslash) escapes in string literals; a claripy string constant is the
+        # characters themselves, so every backslash is written as the escape of a backslash
+        return z3.StringVal(ast.args[0].replace("\\", "\\u{5c}"), ctx=self._context)
 
     @condom
     def StringS(self, ast):
@@ -582,7 +596,7 @@ class BackendZ3(Backend):
         if op_name.startswith("RM_"):
             return RM(op_name)
         if op_name == "INTERNAL":
-            return claripy.StringV(z3.SeqRef(ast).as_string())
+            return claripy.StringV(_z3_unescape_string(z3.SeqRef(ast).as_string()))
         if op_name == "BitVecVal":
             bv_size = z3.Z3_get_bv_sort_size(ctx, z3_sort)
             if z3.Z3_get_numeral_uint64(ctx, ast, self._c_uint64_p):
@@ -739,7 +753,7 @@ class BackendZ3(Backend):
         if op_name == "INTERNAL":
             seq = z3.SeqRef(ast)
             if seq.is_string():
-                return seq.as_string()
+                return _z3_unescape_string(seq.as_string())
         raise BackendError("Unable to abstract Z3 object to primitive")
 
     def _abstract_bv_val(self, ctx, ast):
